@@ -487,7 +487,14 @@ def run_c13(t, tier, res):
                     return
                 if s not in pws:
                     promised += 1
-        # call-history independence
+        # call-history independence (also: the same scorer object refreshes its grammar from the unchanged ruleset)
+        if t.chance(1, 3):
+            from lib_scorer.grammar_io import load_grammar as _reload
+            try:
+                _reload(sc, tr.rule_dir)
+                res.faults["scorer_object_loaded_the_ruleset_again"] += 1
+            except Exception:
+                pass
         order = t.shuffle(cands)
         for junk in ("zz##99", "PasswordPassword1", "йцукен", "a@b.com"):
             try:
